@@ -153,6 +153,8 @@ func flowFaithfulRun(run *ev.Run, tier string) (int64, int64, int64) {
 		{name: "if-else-block-panic-7", cfg: flowCfg(7, 5, `{"L"}`, `{"ifb","block"}`, `{"ret","panic","spanic"}`, `{}`, 2)},
 		{name: "loops-switch-break-7", cfg: flowCfg(7, 4, `{"L"}`, `{"for","switch","select"}`, `{"ret"}`, `{"break","label","continue"}`, 2)},
 		{name: "simple-statements-5", cfg: flowCfg(5, 3, `{"L"}`, `{"ifb","for","closure"}`, `{"ret","assign","define","incdec","send","defer","go","var"}`, `{}`, 3)},
+		// a label as last statement of a clause that is followed by another clause (needs a forward goto to be used)
+		{name: "clause-trailing-label-9", cfg: flowCfg(9, 4, `{"L"}`, `{"switch","select"}`, `{"ret"}`, `{"fgoto","label"}`, 2)},
 	}
 	if tier == "thorough" {
 		confs = []flowConf{
@@ -163,6 +165,7 @@ func flowFaithfulRun(run *ev.Run, tier string) (int64, int64, int64) {
 			{name: "loops-switch-break-9", cfg: flowCfg(9, 5, `{"L"}`, `{"for","switch","select"}`, `{"ret"}`, `{"break","label","continue"}`, 2)},
 			{name: "tswitch-fallthrough-9", cfg: flowCfg(9, 5, `{"L"}`, `{"switch","tswitch"}`, `{"ret","panic"}`, `{"fallthrough","break"}`, 2)},
 			{name: "range-forcond-labels-8", cfg: flowCfg(8, 5, `{"L","M"}`, `{"range","forcond","for","block"}`, `{"ret"}`, `{"break","continue","label"}`, 2)},
+			{name: "clause-trailing-label-9", cfg: flowCfg(9, 4, `{"L"}`, `{"switch","select"}`, `{"ret"}`, `{"fgoto","label"}`, 2)},
 			{name: "simple-statements-6", cfg: flowCfg(6, 4, `{"L"}`, `{"ifb","for","switch","closure"}`, `{"ret","assign","define","incdec","send","defer","go","var"}`, `{}`, 3)},
 		}
 	}
